@@ -366,12 +366,19 @@ def _clone(m, q, args, callee):
 
 @_m(TRAIT_MODELS, ('PartialEq', 'eq'))
 def _eq(m, q, args, callee):
-    a = deref_all(m, args[0])
-    if isinstance(a, Sc) or m.rt_type(a) in ('Option', 'Ordering', 'Duration', None) or isinstance(a, VecObj):
-        return Sc('bool', eq_values(m, args[0], args[1]))
-    if q is not None and q.startswith('&'):
-        # <&T as PartialEq>::eq(&&a, &&b): strip one level and dispatch on T
-        return Sc('bool', eq_values(m, args[0], args[1]))
+    # <&T as PartialEq>::eq(&&a, &&b) etc.: strip reference levels down to &T
+    a, b = args[0], args[1]
+    while isinstance(a, Ref) and isinstance(m.load(a), Ref): a = m.load(a)
+    while isinstance(b, Ref) and isinstance(m.load(b), Ref): b = m.load(b)
+    va = deref_all(m, a)
+    if isinstance(va, Sc) or m.rt_type(va) in ('Option', 'Ordering', 'Duration', None) or isinstance(va, VecObj):
+        return Sc('bool', eq_values(m, a, b))
+    if a is not args[0] or b is not args[1]:
+        rt = m.rt_type(va)
+        f = m.resolve_mir(rt, 'PartialEq', 'eq', [a, b], f'<{rt} as PartialEq>::eq')
+        if f is not None:
+            return m.call_fn(f, [a, b])
+        return Sc('bool', eq_values(m, a, b))
     return NotImplemented
 
 
